@@ -66,6 +66,7 @@ pub fn drivers(spec: SpecId) -> Vec<Case> {
         blocks::indirect_chain(spec, 3),
         blocks::incr_same_slot(spec, 3),
         blocks::coinbase_reader_after_payers(spec),
+        blocks::late_write_chain(spec),
     ]
 }
 
@@ -81,7 +82,9 @@ pub fn jobs(tier: Tier) -> Vec<Job> {
                 v.push(commit_job("c02-commit", c, &RunCfg::parallel(3), COARSE, 1, true));
             }
             v.push(commit_job("c02-commit", &ds[0], &RunCfg::parallel(2), COARSE, 3, true));
-            v.push(commit_job("c02-commit", &ds[1], &RunCfg::parallel(2), COARSE, 3, true));
+            for c in &ds {
+                v.push(commit_job("c02-commit", c, &RunCfg::parallel(2), FOCUS_VALIDATION, 4, true));
+            }
         }
         Tier::Thorough => {
             for c in &ds {
@@ -93,6 +96,9 @@ pub fn jobs(tier: Tier) -> Vec<Job> {
             v.push(commit_job("c02-commit", &blocks::funding_chain(spec, 2), &RunCfg::parallel(2), FINE, 3, true));
             v.push(commit_job("c02-commit", &ds[0], &RunCfg::parallel(2), COARSE, 4, true));
             v.push(commit_job("c02-commit", &ds[1], &RunCfg::parallel(2), COARSE, 4, true));
+            for c in &ds {
+                v.push(commit_job("c02-commit", c, &RunCfg::parallel(2), FOCUS_VALIDATION, 5, true));
+            }
         }
     }
     v
